@@ -164,6 +164,22 @@ theorem regenerated_cot_triangle_identity (p0 p1 p2 : V2 ℝ)
 example : 0 < V2.cross (V2.sub (⟨1, 0⟩ : V2 ℝ) ⟨0, 0⟩) (V2.sub (⟨0, 1⟩ : V2 ℝ) ⟨0, 0⟩) := by
   simp [V2.cross, V2.sub]
 
+/-! ### the two rejection tests in front of the flattening (regenerated; the second pattern requires the pipeline to
+start right after them) -/
+
+/-- a mesh gets past both tests exactly when it has ONE boundary loop, Euler characteristic 1 and one connected piece —
+    the model's `acceptsDisk` (Props/C20 `acceptsDisk_iff`), with `chi` standing for `V − E + F` (here as a natural
+    number: `V + F = E + chi`) -/
+theorem flatten_accepts_iff_disk (nLoops nPatches nVert nEdges nFaces chi : Nat) (hchi : nVert + nFaces = nEdges + chi) :
+    (GenRs.flatten_reject_loops nLoops = false ∧ GenRs.flatten_reject_topology chi nPatches = false) ↔
+      acceptsDisk nLoops nPatches nVert nEdges nFaces = true := by
+  rw [C20.acceptsDisk_iff]
+  unfold GenRs.flatten_reject_loops GenRs.flatten_reject_topology
+  simp only [Bool.or_eq_false_iff, decide_eq_false_iff_not, not_not, ne_eq]
+  constructor
+  · rintro ⟨h1, h2, h3⟩; exact ⟨h1, h3, by omega⟩
+  · rintro ⟨h1, h2, h3⟩; exact ⟨h1, by omega, h2⟩
+
 /-! ### `Mesh::uv_with_tol`: a query given in another frame is moved into the mesh frame ONCE -/
 
 /-- whatever transform the caller gives, the projection `uv_with_tol` delegates to (after it has moved the point
